@@ -223,6 +223,10 @@ def dateparse(val: str, t: type[DateTimeT]) -> DateTimeT:
     # A leading sign negates the whole duration.
     if val.startswith("-P"):
         return -dateparse(val[1:], t)  # type: ignore[operator,return-value]
+    # The standard library keeps the UTC offset of a time-only string.
+    if issubclass(t, datetime.time):
+        with contextlib.suppress(ValueError):
+            return datetime.time.fromisoformat(val)  # type: ignore[return-value]
     try:
         # When `exact=False`, the only two possibilities are DateTime and Duration.
         parsed: pendulum.DateTime | pendulum.Duration = pendulum.parse(val)  # type: ignore[assignment]
